@@ -120,6 +120,9 @@ REPRESENTATIVES = [
     ("tag2", Tag(2, b"\x01")),
     ("null", None), ("true", True), ("false", False), ("undefined", Simple(23)), ("simple0", Simple(0)),
     ("float", 1.5), ("nan", NAN), ("inf", float("inf")),
+    # big VALUES (not big structures): work and memory must follow the input size, not value * size
+    ("big-bignum-4k", Tag(2, b"\xff" * 4096)), ("big-negative-bignum-1k", Tag(3, b"\xaa" * 1024)),
+    ("big-bstr-16k", b"\x5a" * 16384), ("big-tstr-16k", "y" * 16384),
     ("wrapped-int", B(0)), ("wrapped-array", B([])), ("wrapped-map", B({})), ("wrapped-envelope", B(Tag(107, {}))),
 ]
 
